@@ -712,6 +712,7 @@ package xmpp
 //@   requires connectOK(c)
 //@   ensures [C03.Connect.fail,C04.Connect.fail] c.CurrentState.state != StateSessionEstablished && old(c.CurrentState.state) != StateSessionEstablished ==> err != nil && count(Spawn_recv) == old(count(Spawn_recv)) && count(Spawn_keepalive) == old(count(Spawn_keepalive))
 //@   ensures [C13.Connect.loops] err == nil ==> count(Spawn_recv) == old(count(Spawn_recv)) + 1 && last(Spawn_recv, 0) == c && count(Spawn_keepalive) == old(count(Spawn_keepalive)) + 1 && last(Spawn_keepalive, 0) == c.transport && last(Spawn_keepalive, 1) == c.config.KeepaliveInterval && last(Spawn_keepalive, 2) == last(Spawn_recv, 1)
+//@   ensures [C18.Connect.keepalive] err == nil ==> last(Spawn_keepalive, 0) == c.transport && last(Spawn_keepalive, 1) == c.config.KeepaliveInterval && last(Spawn_keepalive, 2) == last(Spawn_recv, 1) && fresh(last(Spawn_recv, 1))
 //@   ensures [C13.Connect.hook]  (err == nil && old(c.PostConnectHook) != nil) ==> count(PostConnectHook) == old(count(PostConnectHook)) + 1
 //@   assigns c.Session, c.Session.err, c.Session.Features, c.Session.TlsEnabled, c.Session.StreamId, c.Session.SMState, c.Session.BindJid, c.Session.lastPacketId, c.config.StreamManagementEnable, c.CurrentState.state
 //@   emits Write, Decoded, DecodedElement, StartTLSCalled, SecureAsked, PacketRead, StanzaRead, AckReqRead, StreamErrRead, TokenRead, Marshaled, StreamStarted, TlsDone, AuthConfirmed, Restarted, ResumedOK, Bound, SessionOpened, SMEnabledOK, Connected, EventHandler, Spawn, Spawn_connect$1, Spawn_recv, Spawn_keepalive, PostConnectHook
@@ -720,6 +721,7 @@ package xmpp
 //@ func (*xmpp.Client).Resume(c) (err)
 //@   requires connectOK(c)
 //@   ensures [C13.Resume.loops] err == nil ==> count(Spawn_recv) == old(count(Spawn_recv)) + 1 && last(Spawn_recv, 0) == c && count(Spawn_keepalive) == old(count(Spawn_keepalive)) + 1 && last(Spawn_keepalive, 0) == c.transport && last(Spawn_keepalive, 2) == last(Spawn_recv, 1)
+//@   ensures [C18.Resume.keepalive] err == nil ==> last(Spawn_keepalive, 0) == c.transport && last(Spawn_keepalive, 1) == c.config.KeepaliveInterval && last(Spawn_keepalive, 2) == last(Spawn_recv, 1) && fresh(last(Spawn_recv, 1))
 //@   ensures [C13.Resume.hook]  (err == nil && old(c.PostResumeHook) != nil) ==> count(PostResumeHook) == old(count(PostResumeHook)) + 1
 //@   ensures [C13.Resume.fail]  c.CurrentState.state != StateSessionEstablished ==> err != nil
 //@   assigns c.Session, c.Session.err, c.Session.Features, c.Session.TlsEnabled, c.Session.StreamId, c.Session.SMState, c.Session.BindJid, c.Session.lastPacketId, c.config.StreamManagementEnable, c.CurrentState.state
